@@ -914,9 +914,28 @@ func unmarshalStruct(
 					}
 
 				} else {
+					// a field promoted through embedded pointers: allocate the nil ones on the way
+					fieldValue := target.Elem()
+					for i, index := range field.Index {
+						if i > 0 && fieldValue.Kind() == reflect.Ptr {
+							if fieldValue.IsNil() {
+								if !fieldValue.CanSet() {
+									// an embedded pointer to an unexported struct type cannot be allocated
+									return nil, we.With(
+										WithPath(ctx),
+										BadTargetType,
+										fmt.Errorf("field: %s", name),
+									)(UnmarshalError)
+								}
+								fieldValue.Set(reflect.New(fieldValue.Type().Elem()))
+							}
+							fieldValue = fieldValue.Elem()
+						}
+						fieldValue = fieldValue.Field(index)
+					}
 					return ctx.Unmarshal(
 						ctx.WithPath(target.Elem().Type().FieldByIndex(field.Index).Name),
-						target.Elem().FieldByIndex(field.Index).Addr(),
+						fieldValue.Addr(),
 						sink,
 					)(token)
 				}
